@@ -25,6 +25,7 @@ from fractions import Fraction
 from harness import lib
 from harness.lib import q, ql, b, bl, natl
 from harness.props import c16_gen as G
+from harness.props import c16_export as XM
 
 INF = float('inf')
 TOL = Fraction(1, 10 ** 12)
@@ -1739,7 +1740,8 @@ def export_phase(ctx, progs, pulses_bad, pnu):
                 fn = PULSES[dcur][op[1] - 1]
                 if fn in pulses_bad:
                     keys.append('export:%s-%s' % (fn, 'records-no-event' if pulses_bad[fn] is None else 'records-wrong-event'))
-        data = {'kind': 'export', 'case': {k: v for k, v in p.items() if k != 'id'}}
+        p['_keys'] = keys
+        data = {'kind': 'export', 'case': {k: v for k, v in p.items() if k not in ('id', '_keys')}}
         if 'error' in r:
             key = None
             if KEY_EXPORT_ADMIX in keys and 'is not in list' in r['error']:
@@ -1789,3 +1791,68 @@ def export_phase(ctx, progs, pulses_bad, pnu):
             ctx.violation('export + re-import does not reproduce the model (%s; spectrum deviation %s; %s) program %s'
                           % (p['tag'], '%.3g' % e if e is not None else 'shape/mask', why or 'programs agree', json.dumps(ops)[:400]),
                           data=dict(data, deviation=e, why=why, exported=r['graph']), key=key)
+    export_model_checks(ctx, progs, byid)
+
+def export_model_checks(ctx, progs, byid):
+    """the exporter model (coq/theories/Model/DemesExportModel.v, the object of export_import_same_program /
+    export_import_reorder) against the real code, for every native program of the export phase whose event log has the
+    shape phi_1D; (record?; integration)*:
+      export   : export_model / export_events / final_ids of the REAL event log (dadi.Demes.cache) = the graph the real
+                 dadi.Demes.output returned as `demes` resolved it, the events `demes` reports for it, the final names
+      native   : native_calls of the log = the calls that were actually made
+      reimport : sorted_calls of the log ++ [from_phi] (the conclusion of the theorems) = the calls the REAL importer made
+                 on the REAL exported graph"""
+    ex_cases, nat_cases, re_cases = [], [], []
+    meta = {}
+    for p in progs:
+        r = byid[p['id']]
+        if p.get('ops') is None or 'error' in r:
+            continue
+        if 'cache_full' not in r or 'events1' not in r:
+            ctx.obligation('export case %d (%s): the event log and the events of the exported graph were recorded' % (p['id'], p['tag']), False,
+                           'harness', r.get('cache_full_error', 'missing'))
+            continue
+        try:
+            nu, rounds = XM.rounds_of(r['cache_full'])
+        except XM.NotInClass as e:
+            ctx.count('export model: log outside the shape of the model (%s)' % e)
+            continue
+        ctx.count('export model: log of stage %d%s' % (XM.log_stage(rounds), '' if XM.in_theorem_class(rounds) else ' with reorder_pops'))
+        meta[p['id']] = p
+        try:
+            ex_cases.append((p['id'], XM.export_case_coq(nu, rounds, p['Nref'], p['gen_time'], r['graph'], r['events1'], r['final_ids'])))
+            nat_cases.append((p['id'], XM.native_case_coq(nu, rounds, r['calls0'])))
+            re_cases.append((p['id'], XM.reimport_case_coq(nu, rounds, r['graph'], p['ns'], r['calls1'])))
+        except (KeyError, ValueError, AssertionError) as e:
+            ctx.obligation('export case %d (%s): the run can be written down for the model' % (p['id'], p['tag']), False, 'correspondence',
+                           '%s: %s' % (type(e).__name__, str(e)[:200]))
+            if p['_keys']:
+                ctx.obligations[-1]['known_key'] = p['_keys'][0]
+    if not ctx.replay:
+        ctx.obligation('generator coverage: export programs whose event log the exporter model covers', len(ex_cases) >= 12, 'harness',
+                       '%d programs' % len(ex_cases))
+    tol = q(TOL)
+    for tag, cases, fn, what, codes in (
+            ('xmodel', ex_cases, '(check_export %s)' % tol,
+             'the graph / events / final names of the real dadi.Demes.output = export_model of the real event log',
+             '1000: the graphs differ in structure; 2000: the events; 3000: the final names'),
+            ('xnative', nat_cases, '(check_native %s)' % tol, 'the calls that were made = native_calls of the real event log',
+             '1000 + k: call k differs'),
+            ('ximport', re_cases, '(check_prog %s)' % tol,
+             'the calls the real importer makes on the real exported graph = sorted_calls of the log ++ [from_phi] '
+             '(conclusion of export_import_same_program / export_import_reorder)', '1000 + k: call k differs')):
+        if not cases:
+            continue
+        results = ctx.coq_cases(tag, XM.HEADER, cases, fn, 'tol 1e-12 relative per number', shard=ctx.pick(8, 24), timeout=1500)
+        lap(ctx, 'coq %s (%d cases)' % (tag, len(cases)))
+        for cid, _ in cases:
+            p = meta[cid]
+            rr = results.get(cid)
+            ok = rr is not None and rr[0]
+            ctx.obligation('export case %d (%s): %s' % (cid, p['tag'], what), ok, 'correspondence', '' if ok else 'coq: %r (%s)' % (rr, codes))
+            if not ok:
+                key = p['_keys'][0] if p['_keys'] else None
+                if key:
+                    ctx.obligations[-1]['known_key'] = key
+                ctx.violation('%s FAILS for the program %s (coq %r: %s)' % (what, json.dumps(p['ops'])[:300], rr, codes),
+                              data={'kind': 'export', 'case': {k: v for k, v in p.items() if k not in ('id', '_keys')}, 'model_check': tag}, key=key)
